@@ -67,7 +67,7 @@ class C19(Prop):
             "19 patterns, through Cell::get_formatted_value and to_formatted_string; every built-in format id x 14 numbers; text under "
             "General; distinct = distinct (bits, pattern, path) triples")
     assumptions = ["oracle: Python decimal, Decimal(repr(x)).quantize(ROUND_HALF_UP) on the magnitude, sign kept, grouping by 3",
-                   "for a negative number whose rounded magnitude is zero both '-0.00' and '0.00' are accepted"]
+                   "the sign of a negative number is kept also when the rounded magnitude is zero ('-0.00'), as the property states"]
 
     def post(self, v, res, out, tier, seed):
         sys.path.insert(0, os.path.join(vlib.VERIF, "monitors"))
